@@ -653,7 +653,12 @@ impl UndoOperation for DeleteRow {
         if let Some(layer) = edit_state.get_buffer_mut().layers.get_mut(self.layer) {
             let mut deleted_row = Line::default();
             mem::swap(&mut self.deleted_row, &mut deleted_row);
-            layer.lines.insert(self.line as usize, deleted_row);
+            // rows that are not stored are empty: the rows above the deleted one may have to be created first
+            let line = self.line as usize;
+            if layer.lines.len() < line {
+                layer.lines.resize(line, Line::default());
+            }
+            layer.lines.insert(line, deleted_row);
             layer.set_height(layer.get_height() + 1);
             Ok(())
         } else {
@@ -699,7 +704,9 @@ impl UndoOperation for InsertRow {
 
     fn undo(&mut self, edit_state: &mut EditState) -> EngineResult<()> {
         if let Some(layer) = edit_state.get_buffer_mut().layers.get_mut(self.layer) {
-            self.inserted_row = layer.lines.remove(self.line as usize);
+            // a row that is not stored is empty
+            let line = self.line as usize;
+            self.inserted_row = if line < layer.lines.len() { layer.lines.remove(line) } else { Line::default() };
             layer.set_height(layer.get_height() - 1);
             Ok(())
         } else {
@@ -748,9 +755,17 @@ impl UndoOperation for DeleteColumn {
     fn undo(&mut self, edit_state: &mut EditState) -> EngineResult<()> {
         if let Some(layer) = edit_state.get_buffer_mut().layers.get_mut(self.layer) {
             let offset: usize = self.column as usize;
+            // rows and cells that are not stored are invisible: the ones a deleted character goes back into may have to be created first
+            if layer.lines.len() < self.deleted_chars.len() {
+                layer.lines.resize(self.deleted_chars.len(), Line::default());
+            }
             for (i, ch) in self.deleted_chars.iter().enumerate() {
                 if let Some(ch) = ch {
-                    layer.lines[i].chars.insert(offset, *ch);
+                    let chars = &mut layer.lines[i].chars;
+                    if chars.len() < offset {
+                        chars.resize(offset, AttributedChar::invisible());
+                    }
+                    chars.insert(offset, *ch);
                 }
             }
             layer.set_width(layer.get_width() + 1);
